@@ -77,10 +77,34 @@ def _ddmin(items, make, modname, target, lanes, timeout, budget):
     return items, last
 
 
-def minimise(mod, modname, sc, res, lanes=16, timeout=120.0, max_exec=300, max_s=90.0):
+def _prefix_search(items, make, modname, target, lanes, timeout, budget):
+    """Shortest prefix of a recorded decision list that still fails (decisions after the failure point are irrelevant;
+    the canonical fallback takes over where the list ends).  Several cut points are tried in parallel per round."""
+    last = None
+    lo, hi = 0, len(items)  # invariant: items[:hi] fails
+    while hi - lo > 1 and budget.ok():
+        cuts = sorted({lo + (hi - lo) * j // 5 for j in range(1, 5)} - {lo, hi})
+        if not cuts:
+            break
+        n = budget.take(len(cuts))
+        cuts = cuts[:n]
+        rs = runner.run_many(_exec, [(modname, make(items[:c])) for c in cuts], lanes=lanes, timeout=timeout)
+        ok_cuts = [c for c, r in zip(cuts, rs) if _vclass(r) == target]
+        if ok_cuts:
+            hi = min(ok_cuts)
+            last = rs[cuts.index(hi)]
+            bad = [c for c in cuts if c < hi]
+            lo = max(bad) if bad else lo
+        else:
+            lo = max(cuts)
+    return items[:hi], last
+
+
+def minimise(mod, modname, sc, res, lanes=16, timeout=120.0, max_exec=600, max_s=240.0):
     target = _vclass(res)
-    budget = Budget(max_exec, max_s)
-    # 1. scenario level (prng schedule re-drawn from the same seed for every candidate)
+    total = Budget(max_exec, max_s)
+    # 1. scenario level (prng schedule re-drawn from the same seed for every candidate): at most 40 % of the budget
+    budget = Budget(int(max_exec * 0.4), max_s * 0.4)
     progress = True
     while progress and budget.ok() and hasattr(mod, "shrink_candidates"):
         progress = False
@@ -102,7 +126,10 @@ def minimise(mod, modname, sc, res, lanes=16, timeout=120.0, max_exec=300, max_s
             i, r = _try_all(modname, re, target, lanes, timeout, budget)
             if i is not None:
                 sc, res, progress = re[i], r, True
-    # 2. explicit trace
+    # 2. explicit trace (the rest of the budget)
+    used1 = budget.used
+    budget = Budget(max_exec - used1, max(10.0, total.t_end - time.monotonic()))
+    budget.used = used1
     if not hasattr(mod, "to_trace_scenario") or sc.get("schedule", {}).get("mode") != "prng":
         return sc, res, budget.used
     sct = mod.to_trace_scenario(sc, res)
@@ -130,6 +157,34 @@ def minimise(mod, modname, sc, res, lanes=16, timeout=120.0, max_exec=300, max_s
             k += 1
     # 4. pre-emption points (ddmin), then choices, then workers
     pre = list(sc["schedule"].get("preempts") or [])
+    # 4a. whole tasks first: a task that is not part of the race can run without being pre-empted at all
+    groups = sorted({(p_[0], p_[1]) for p_ in pre})
+    if len(groups) > 1 and budget.ok():
+        n = budget.take(len(groups))
+        groups = groups[:n]
+        cands = [[p_ for p_ in pre if (p_[0], p_[1]) != g] for g in groups]
+        rs = runner.run_many(_exec, [(modname, with_sched(preempts=c)) for c in cands], lanes=lanes, timeout=timeout)
+        removable = [g for g, r in zip(groups, rs) if _vclass(r) == target]
+        if removable:
+            allgone = [p_ for p_ in pre if (p_[0], p_[1]) not in set(removable)]
+            i, r = _try_all(modname, [with_sched(preempts=allgone)], target, lanes, timeout, budget)
+            if i is not None:
+                pre = allgone
+                sc, res = with_sched(preempts=pre), r
+            else:
+                for g in removable:
+                    if not budget.ok():
+                        break
+                    cand = [p_ for p_ in pre if (p_[0], p_[1]) != g]
+                    i, r = _try_all(modname, [with_sched(preempts=cand)], target, lanes, timeout, budget)
+                    if i is not None:
+                        pre = cand
+                        sc, res = with_sched(preempts=pre), r
+    if len(pre) > 4 and budget.ok():
+        pre_p, r = _prefix_search(pre, lambda sub: with_sched(preempts=sub), modname, target, lanes, timeout, budget)
+        if r is not None:
+            pre = pre_p
+            sc, res = with_sched(preempts=pre), r
     if pre and budget.ok():
         pre2, r = _ddmin(pre, lambda sub: with_sched(preempts=sub), modname, target, lanes, timeout, budget)
         if r is not None:
@@ -140,6 +195,11 @@ def minimise(mod, modname, sc, res, lanes=16, timeout=120.0, max_exec=300, max_s
         if i is not None:
             sc, res = with_sched(choices=[]), r
         else:
+            if len(ch) > 8:
+                ch_p, r = _prefix_search(ch, lambda sub: with_sched(choices=sub), modname, target, lanes, timeout, budget)
+                if r is not None:
+                    ch = ch_p
+                    sc, res = with_sched(choices=ch), r
             ch2, r = _ddmin(ch, lambda sub: with_sched(choices=sub), modname, target, lanes, timeout, budget)
             if r is not None:
                 sc, res = with_sched(choices=ch2), r
